@@ -77,6 +77,8 @@ class KNXIPFrame:
         """
         header = KNXIPHeader()
         pos_body = header.from_knx(data)
+        if header.total_length < pos_body:
+            raise CouldNotParseKNXIP("total length shorter than the header")
         if len(data) < header.total_length:
             raise IncompleteKNXIPFrame("Incomplete data for KNXIPFrame")
         # limit data to self.header.total_length for streaming socket data
